@@ -110,10 +110,11 @@ def h_link_hash(si: int) -> bool:
     # CrossHair models set membership without calling __hash__ (multiply puts circular links into a set):
     # the method itself must return an integer, equal for a link and its complement
     with NoTracing():
+      # cut: executed untraced -- CrossHair's model of hash() on strings does not exhaust (realisation loop)
       c = e.complement()
-    h1 = e.__hash__()
-    h2 = c.__hash__()
-    if not isinstance(h1, int) or not isinstance(h2, int): return False
+      h1 = e.__hash__()
+      h2 = c.__hash__()
+      if type(h1) is not int or type(h2) is not int or h1 != h2: return False
   return True
 
 def h_multiply(si: int, factor: int, pi: int, named: bool, star: bool, rci: int, erci: int) -> bool:
